@@ -205,6 +205,10 @@ def run(ck):
     # hold for the radio only while every setter keeps those copies equal to the registers (C03's R03.3 obligations, re-run here)
     from . import c03
     n9 = c03.run_setters(radio, agg, contract.SETTERS)
+    # "attributed to the pipe whose address it was sent to": the addresses handed to open_rx_pipe() must not stay shared with the caller
+    # (R08.1: the driver keeps private copies)
+    from . import c08
+    c08.user_addr_writers(radio, agg, radio.user_pipe0_field())
     # FakeBLE.advertise takes caller buffers too
     ble = Radio(ck, "fake_ble", "FakeBLE")
     fadv = ck.prog.method(ble.cls, "advertise")
